@@ -2919,6 +2919,8 @@ def h_where(ev, args, kwargs, fr, node):
     if len(args) == 1:
         return h_nonzero(ev, args, kwargs, fr, node)        # np.where(cond) is np.nonzero(cond)
     c, a, b = args
+    if isinstance(c, BoolV):
+        return a if c.b else b
     if isinstance(c, NdArr):
         # explicit boolean mask over a data array: keep the mask in the trace so that rules can read which cells
         # take which side; the value term names the mask
@@ -2934,6 +2936,17 @@ def h_where(ev, args, kwargs, fr, node):
             out = data.like(expr, unit=data.unit)
             ev.trace.append(("where-mask", sym, c, "true" if data is a else "false", data, other))
             return out
+        if isinstance(a, (NdArr, Num, BoolV)) and isinstance(b, (NdArr, Num, BoolV)) and all(isinstance(e, (BoolV, CondV)) for e in c.items) \
+                and not (isinstance(a, Num) and a.shape) and not (isinstance(b, Num) and b.shape):
+            # explicit selection between explicit (or scalar) values; an undecided element becomes a conditional value
+            shape1, p1 = nd_pairs(ev, c, a, node, fr)
+            shape2, p2 = nd_pairs(ev, NdArr(shape1, [x for x, _ in p1]), b, node, fr)
+            if shape1 == shape2:
+                def pick(cv, av, bv):
+                    if isinstance(cv, BoolV):
+                        return av if cv.b else bv
+                    return ev.ite(cv.expr, av, bv)
+                return NdArr(shape1, [pick(cv, av, bv) for (cv, av), (_, bv) in zip(p1, p2)])
         ev.unsupported("np.where with an explicit mask over values that are not (data array, scalar)", node, fr)
     ce = c.expr
     if not is_bool_expr(ce):
@@ -2989,6 +3002,25 @@ def h_allclose(ev, args, kwargs, fr, node):
         conds = [sp.Ne(F["Allclose"](e.expr, b.expr), 0) for e in a.items]
         return CondV(sp.And(*conds))
     return CondV(sp.Ne(F["Allclose"](a.expr, b.expr), 0))
+
+
+def h_isclose(ev, args, kwargs, fr, node):
+    """np.isclose(a, b, rtol=1e-5, atol=1e-8): |a - b| <= atol + rtol*|b|, elementwise; decided for concrete numbers."""
+    a, b = args[0], args[1]
+    rtol = kwargs.get("rtol", args[2] if len(args) > 2 else Num(sp.Rational(1, 10**5)))
+    atol = kwargs.get("atol", args[3] if len(args) > 3 else Num(sp.Rational(1, 10**8)))
+    if isinstance(a, NdArr) or isinstance(b, NdArr):
+        shape, pairs = nd_pairs(ev, a, b, node, fr)
+        return NdArr(shape, [h_isclose(ev, [x, y, rtol, atol], {}, fr, node) for x, y in pairs])
+    if isinstance(a, Num) and isinstance(b, Num) and a.expr.is_number and b.expr.is_number and isinstance(rtol, Num) and isinstance(atol, Num) \
+            and rtol.expr.is_number and atol.expr.is_number and a.expr.is_real and b.expr.is_real:
+        return BoolV(bool(sp.Abs(a.expr - b.expr) <= atol.expr + rtol.expr * sp.Abs(b.expr)))
+    if isinstance(a, Num) and isinstance(b, Num) and not a.shape and not b.shape and isinstance(rtol, Num) and isinstance(atol, Num) \
+            and a.kind in ("number", "array") and b.kind in ("number", "array") and not (a.expr.free_symbols | b.expr.free_symbols) & UNIT_SYMS:
+        # the definition itself, as a relational term: the window is RELATIVE to |b| unless rtol is given as 0
+        ev.trace.append(("isclose-window", a, b, rtol, atol, node))
+        return CondV(sp.Le(sp.Abs(a.expr - b.expr), atol.expr + rtol.expr * sp.Abs(b.expr)))
+    return h_allclose(ev, args, kwargs, fr, node)
 
 
 def h_iscomplexobj(ev, args, kwargs, fr, node):
@@ -3262,7 +3294,7 @@ EXT = {
     "dask.array.asarray": lambda ev, a, k, fr, n: a[0].like(a[0].expr, backend="dask") if isinstance(a[0], Num) else a[0],
     "numpy.stack": h_stack, "numpy.concatenate": h_concatenate, "numpy.moveaxis": h_moveaxis, "numpy.swapaxes": h_swapaxes, "numpy.flip": h_flip, "numpy.take": h_take, "numpy.nditer": h_nditer, "numpy.broadcast_to": h_broadcast_to,
     "numpy.prod": h_prod, "math.prod": h_prod, "numpy.where": h_where, "numpy.bool_": h_bool_,
-    "numpy.allclose": h_allclose, "numpy.isclose": h_allclose, "numpy.iscomplexobj": h_iscomplexobj,
+    "numpy.allclose": h_allclose, "numpy.isclose": h_isclose, "numpy.iscomplexobj": h_iscomplexobj,
     "numpy.fft.fftshift": _shift_like("FFTSHIFT"), "numpy.fft.ifftshift": _shift_like("IFFTSHIFT"),
     "astropy.units.Quantity": h_quantity, "astropy.coordinates.Angle": lambda ev, a, k, fr, n: h_quantity(ev, a, k, fr, n, angle=True),
     "astropy.coordinates.Longitude": lambda ev, a, k, fr, n: h_quantity(ev, a, k, fr, n, angle=True),
